@@ -333,8 +333,9 @@ that argument: replacing its contents by any `qp` gives the same error, or the s
 (all scalar variables and arrays, in particular `A`) up to the replaced argument itself.
 
 The generator-side obligation `needs_facet_permutations = false → readsPerm ast = false` is
-checked by `harness/props/c03.py` on every interior-facet kernel (DESIGN §7 F13 is its known
-counterexample: it is a violation of the obligation, not of this theorem). -/
+checked by `harness/props/c03.py` on every interior-facet kernel (DESIGN §7 F13 — one-sided
+integrands flagged false while reading `quadrature_permutation[0]` — was a violation of that
+obligation, fixed in /repo f56077e; the check stays armed under `flag:one-sided-dS:reads-perm`). -/
 theorem flag_false_independent {R : Type} [Add R] [Sub R] [Mul R] [Div R] [Neg R] [IntCast R]
     (x : Extra R) (k : Stmt) (h : readsPerm k = false) (σ : St R) (qp : Array Int) :
     let σ' : St R := setIA σ (σ.ia.set "quadrature_permutation" qp)
